@@ -54,6 +54,10 @@ def gen_cfg(rnd, opts=None):
             cfg["services"]["proxy.example.org"] = rnd.choice(["proxycheck", "LOGINX", "none"])
     if modules == "class":
         cfg["rules"] = gen_rules(rnd, sorted(cfg["services"]))
+        if cfg.get("wide_table") and rnd.random() < 0.7:
+            # the first rule in name order asks for an OK from the service in the last (or another boundary) table slot
+            order = sorted(cfg["services"], key=lambda n: n.lower())
+            cfg["rules"]["!first"] = {"class": "boundary", "xreply_ok": order[min(len(order) - 1, rnd.choice([31, 31, 31, 30, 15, 16]))]}
     cfg["timeout"] = opts.get("timeout", rnd.choice([0, 0, 5, 20, 30, 90, 3600, 7200]))
     if rnd.random() < opts.get("p_logs", 0.4):
         cfg["logs"] = gen_logs(rnd)
@@ -81,6 +85,8 @@ def gen_rules(rnd, svcnames):
                                         "dotted\\.example.net", "[a-c]*.org", "h[!0-9]st.net", "star\\*.org"])
         if rnd.random() < 0.3 and svcnames:
             s = rnd.choice(svcnames + ["none.example.org"])
+            if len(svcnames) >= 32 and rnd.random() < 0.6:
+                s = sorted(svcnames, key=lambda n: n.lower())[rnd.choice([31, 31, 30, 7, 15, 16])]     # slots at mask boundaries
             r["xreply_ok"] = rnd.choice([s, s.upper(), s.lower()])
         if rnd.random() < 0.3:
             r["trust_username"] = rnd.choice(BOOL_TRUE + BOOL_FALSE)
@@ -253,6 +259,11 @@ def render_cfg(cfg, scratch, libpath=None):
 
 # --------------------------------------------------------------- generator
 
+def r_ids_alias(rnd):
+    """15% of the runs: some ids are congruent to others modulo a power of two (tables indexed by id % 2^k)"""
+    return rnd.random() < 0.15
+
+
 class Gen:
     """Seeded online scheduler: picks the next environment action from what
     is enabled in the observed world state."""
@@ -278,6 +289,16 @@ class Gen:
             self.faults = set(o["faults"])
         if cfg.get("wide_table"):
             self.faults.discard("cfg_tables")       # (which entries get a table slot is only modelled for a fresh start)
+            # dozens of queries per client: few clients, prompt and mostly positive answers, enough steps to finish
+            self.total = min(self.total, 4)
+            self.maxconc = min(self.maxconc, 2)
+            self.max_steps = max(self.max_steps, 500)
+            self.wide = True
+        if r_ids_alias(rnd):
+            base = ids[0]
+            ids[1:3] = [base + rnd.choice([1024, 1024, 1024, 256, 512, 2048, 4096, 65536, 1 << 20]) * rnd.randint(1, 3) for _ in ids[1:3]]
+            if rnd.random() < 0.5:
+                ids = ids[:3]       # mostly the colliding ids are in use
         if "extreme_ids" in self.faults:
             ids[:2] = rnd.sample([2147483647, -2147483648, 0, -2, 2147483646], 2)
         self.ids = ids
@@ -294,6 +315,10 @@ class Gen:
             if sum(wts) == 0:
                 wts[0] = 1
             self.policy[s] = (kinds, wts)
+        if cfg.get("wide_table"):
+            self.p_reply = 0.95
+            for sname in list(self.policy):
+                self.policy[sname] = (kinds, [6, 2, 2, 0, 0, 0, 0, 0] if rnd.random() < 0.9 else [3, 1, 1, 1, 0, 1, 1, 1])
         self.addr_family = rnd.choice([None, None, "v4", "v6"])
         self.no_compat = cfg["modules"] == "class"
         self.w_adv = rnd.choice([0.3, 1, 3]) if cfg.get("timeout") else rnd.choice([0, 0.3])
@@ -326,7 +351,7 @@ class Gen:
         claimed = word(r, self.L(USERLEN))
         real = " ".join(word(r, r.randint(1, 9)) for _ in range(r.randint(1, 8)))[:self.L(REALLEN)]
         if r.random() < 0.1:
-            real = r.choice(["", ":colon first", " lead", "trail ", "caf\xe9 \xff", "%s %d"])
+            real = r.choice(["", ":colon first", " lead", "trail ", "caf\xe9 \xff", "%s %d", "50%off today", "%n%n", "100%"])
         host = (word(r, self.L(HOSTLEN) - 4, HOSTCH) + r.choice([".org", ".net"])) if r.random() < 0.75 else None
         # client data built from the rule table in force: instances and near misses of its globs
         if self.cfg["modules"] == "class" and self.lenmode != "over":
@@ -361,9 +386,12 @@ class Gen:
     def gen_pass(self, good):
         r = self.rnd
         if good:
-            m = r.choice(["+", "+x", "+!", "-!", "+x!", "-x", "+x-x", "+!-!", "-", "+!x", "+x-!", "-x+!"])
+            m = r.choice(["+", "+x", "+!", "-!", "+x!", "-x", "+x-x", "+!-!", "-", "+!x", "+x-!", "-x+!",
+                          "-x+x", "-x!+x", "+-x+x", "-!+!", "+x-x+x", "-x!+x!", "+!-!+!"])
             acct = word(r, r.randint(1, 12), "abcdefghijklmnopqrstuvwxyz0123456789")
             pw = " ".join(word(r, r.randint(1, 8)) for _ in range(r.choice([1, 1, 1, 2, 3])))
+            if r.random() < 0.04:
+                pw = r.choice(["pa%%ss", "100%", "%s%s%s", "%n", "a%dz %x", "50%off"]) + r.choice(["", " " + pw])
             if self.lenmode == "over" and r.random() < 0.3:
                 pw = word(r, 520)
             elif self.lenmode == "limit" and r.random() < 0.3:
@@ -393,7 +421,8 @@ class Gen:
                 a = glob_instance(r, r.choice(pats).split(":")[0], 12)
                 self.fire("account_near_rule")
             a = r.choice([a, a + ":%d" % r.randrange(10 ** 9), a + ":%d:%d" % (r.randrange(10 ** 9), r.randrange(10 ** 6)),
-                          a, "oper", "oper:1:2", "nobody", a + "x" * 70])
+                          a, "oper", "oper:1:2", "nobody", a + "x" * 70,
+                          (a + ":" + "9" * 70)[:r.choice([62, 63, 64, 65])]])
             return "X", "OK " + a + r.choice(["", "", " trailing words"])
         if k == "OKE":
             return "X", "OK "
@@ -423,6 +452,8 @@ class Gen:
     def next(self, w):
         r = self.rnd
         self.w_ref = w
+        if getattr(self, "queue", None):
+            return self.queue.pop(0)
         self.n += 1
         if self.n > self.max_steps:
             return None
@@ -527,6 +558,21 @@ class Gen:
                 self.fire("announce_same_endpoints" if k < 0.6 else "announce_same_address")
             last[cid] = op
             self.last_announce = last
+            # rarely: so many other clients come and go first that the daemon's instance counter has advanced by
+            # exactly 2^16 (or 2^8) since this id was last announced (counters kept in a narrow type wrap around)
+            idx = getattr(self, "ann_index", {})
+            if cid in idx and "xr_stale" in self.faults and not getattr(self, "wrapped", False) and r.random() < self.o.get("p_wrap", 0.03):
+                self.wrapped = True
+                span = r.choice([65536, 65536, 256])
+                n = span - 1 - (w.announces - idx[cid])
+                if 0 < n <= 70000:
+                    self.queue = [op]
+                    self.fire("serial_wrap_%d" % span)
+                    idx[cid] = w.announces + n + 1
+                    self.ann_index = idx
+                    return {"op": "filler", "n": n}
+            idx[cid] = w.announces + 1
+            self.ann_index = idx
             return op
         if a == "adv":
             dl = sorted(i.deadline - w.now for i in w.live.values() if i.deadline is not None and not i.expired)
@@ -929,6 +975,8 @@ class Exec:
             return self.do_eof()
         if k == "audit":
             return self.do_audit()
+        if k == "filler":
+            return self.do_filler(op)
         c = self.resolve(op)
         if c is None:
             self.res.ops.append({"skipped": op})
@@ -985,6 +1033,29 @@ class Exec:
         # judges the whole history by its own oracle); it ends at the first violation of its own property
         if any(self.prop in v.props for v in self.w.viol) or len(self.w.viol) >= 6:
             return False
+        return not self.h.dead
+
+    def do_filler(self, op):
+        """op["n"] short-lived clients on an id nobody else uses come and go (the model only counts them)."""
+        n = op["n"]
+        out = []
+        try:
+            for base in range(0, n, 500):
+                m = min(500, n - base)
+                out += self.h.feed(b"7777 C 10.9.8.7 1000 0::1 6667\n7777 D\n" * m).lines()
+        except (H.HostDied, H.HostHang) as ex:
+            self.log("filler", {"n": n}, ["<daemon died: %s>" % type(ex).__name__])
+            self.died = type(ex).__name__
+            return False
+        self.w.announces += n
+        self.w.probe("filler_clients", n)
+        self.log("filler", {"n": n}, out)
+        self.res.outputs.append(out)
+        if self.snap:
+            self.res.snaps.append(self.res.snaps[-1] if self.res.snaps else None)
+        self.res.steps += 1
+        if any(not l.startswith(">") for l in out):
+            self.w.v(("C01", "C07"), "unprovoked", "clients that only came and went produced output: %r" % out[:3])
         return not self.h.dead
 
     def do_reload(self, c):
